@@ -59,6 +59,30 @@ def _dominance_lambda(fi: FuncInfo, name: str, prog: Optional[Program] = None, c
 def _pred_body(f: FuncInfo) -> Optional[ast.AST]:
     """boolean expression computed by a predicate whose body is `[if <c>: return False]* ; return <e>` (docstring allowed)."""
     body = [b for b in f.node.body if not (isinstance(b, ast.Expr) and isinstance(b.value, ast.Constant))]
+
+    def as_bool(block):
+        # `return e` / `if c: return a  else: return b` (every path its own return) as one boolean expression
+        blk = [b for b in block if not (isinstance(b, ast.Expr) and isinstance(b.value, ast.Constant))]
+        if len(blk) == 1 and isinstance(blk[0], ast.Return) and blk[0].value is not None:
+            return blk[0].value
+        if len(blk) == 1 and isinstance(blk[0], ast.If) and blk[0].orelse:
+            a, b = as_bool(blk[0].body), as_bool(blk[0].orelse)
+            if a is None or b is None:
+                return None
+            t = blk[0].test
+            nt = t.operand if isinstance(t, ast.UnaryOp) and isinstance(t.op, ast.Not) else ast.UnaryOp(op=ast.Not(), operand=t)
+            if isinstance(a, ast.Constant) and a.value is False:
+                return ast.BoolOp(op=ast.And(), values=[nt, b])
+            if isinstance(b, ast.Constant) and b.value is False:
+                return ast.BoolOp(op=ast.And(), values=[t, a])
+            if isinstance(a, ast.Constant) and a.value is True:
+                return ast.BoolOp(op=ast.Or(), values=[t, b])
+            if isinstance(b, ast.Constant) and b.value is True:
+                return ast.BoolOp(op=ast.Or(), values=[nt, a])
+            return None
+        return None
+    if len(body) == 1 and isinstance(body[0], ast.If) and body[0].orelse:
+        return as_bool(body)
     if not body or not isinstance(body[-1], ast.Return) or body[-1].value is None:
         return None
     conj = []
